@@ -71,7 +71,7 @@ pub fn oracles(v: &View, stats: &mut Stats) -> Vec<Record> {
                         ))
                         .fact("packet", p.kind())
                         .fact("zero", p.pkid() == 0)
-                        .fact("limit_lowered_by_connack", v.limit_eff < v.limit_cfg),
+                        .fact("limit_lowered_by_connack", v.limit_lowered),
                     );
                 }
             }
@@ -133,7 +133,7 @@ pub fn oracles(v: &View, stats: &mut Stats) -> Vec<Record> {
                 "window-exceeded",
                 format!("{} publishes are written and unacknowledged, limit in force is {} (after {})", window, v.limit_eff, v.step_show()),
             ))
-            .fact("limit_lowered_by_connack", v.limit_eff < v.limit_cfg),
+            .fact("limit_lowered_by_connack", v.limit_lowered),
         );
     }
 
@@ -244,16 +244,417 @@ pub fn oracles(v: &View, stats: &mut Stats) -> Vec<Record> {
     out
 }
 
-/// Event-loop half: absent until `src/sub/s3.rs` exists.
-pub fn s3_half(_ctx: &Ctx, _stats: &mut Stats) {}
+// ------------------------------------------------------------------ event-loop half (S3)
+
+mod el {
+    //! Real `EventLoop::poll()` with more user requests waiting in the request channel than the
+    //! window admits, against a scripted broker that acknowledges late / out of order. Judged
+    //! on what `poll()` returns and on the public bookkeeping right after each return:
+    //!  * a `poll()` entered with the window full or a collision pending (and nothing queued,
+    //!    nothing carried over) must not come back with a user request;
+    //!  * a `poll()` entered with room in the window and a request waiting must not block;
+    //!  * when the connection goes idle with room in the window no request is left waiting;
+    //!  * wire-side: ids in range, unique among unacknowledged publishes, window within limit.
+    use super::ID;
+    use crate::common::{fnv, judge, Ctx, Judged, Record, Rng, Stats};
+    use crate::gen::cs3::{self, Case, Cls, ConnSpec, UOp, UStep, R, W};
+    use crate::sub::s3::{Dir, Kind, RunLog, Ver};
+    use serde_json::{json, Value};
+    use std::collections::BTreeMap;
+
+    fn is_request_outcome(k: Kind) -> bool {
+        matches!(
+            k,
+            Kind::Publish | Kind::Subscribe | Kind::Unsubscribe | Kind::Disconnect | Kind::AwaitAck | Kind::PubAck | Kind::PubRec
+        )
+    }
+
+    /// limit in force on connection 0 (v5: receive_max negotiated down)
+    fn limit_of(case: &Case) -> u16 {
+        match (case.ver(), case.conns.first().and_then(|c| c.receive_max)) {
+            (Ver::V5, Some(rm)) => rm.min(case.inflight),
+            _ => case.inflight,
+        }
+    }
+
+    pub fn verdicts(case: &Case, log: &RunLog, stats: &mut Stats) -> Vec<Record> {
+        let mut out = vec![];
+        let ver = case.ver().name();
+        let limit = limit_of(case);
+        let rec = |oracle: &str, msg: String| Record::new(ID, oracle, msg).fact("version", ver).fact("substrate", "S3");
+        if let Some(p) = &log.panic {
+            out.push(
+                rec("panic", format!("poll() panicked at {}: {}", p.location, p.message))
+                    .fact("site", crate::common::panic_site(p))
+                    .fact("after", "poll"),
+            );
+            return out;
+        }
+        // the scenarios of this half use one connection and transports that never fail; anything
+        // else is not what the oracles below were written for
+        if log.conns.len() != 1 || log.polls.iter().any(|p| p.err().is_some()) {
+            stats.add_extra("s3_runs_not_judged_connection_ended", 1);
+            return out;
+        }
+
+        // requests issued by the user between polls (never timed in these scenarios)
+        let issued_before = |i: usize| log.user.iter().filter(|u| u.ok && u.polls_before <= i).count();
+        let mut taken = 0usize;
+        for i in 1..log.polls.len() {
+            let (prev, cur) = (&log.polls[i - 1], &log.polls[i]);
+            let ran_select = prev.snap.queued_events_len == 0;
+            if !ran_select {
+                continue;
+            }
+            let first_is_request = cur.ev().map(|e| !e.incoming && is_request_outcome(e.pk.kind)).unwrap_or(false);
+            let gate_closed = prev.snap.inflight >= limit || prev.snap.collision.is_some();
+            let waiting = issued_before(i) > taken;
+            if prev.snap.pending_len == 0 {
+                if gate_closed {
+                    stats.oracle("C07/s3/no-request-while-gate-closed");
+                    if prev.snap.collision.is_some() {
+                        stats.corner("s3-poll-entered-with-collision");
+                    } else {
+                        stats.corner("s3-poll-entered-with-window-full");
+                    }
+                    if first_is_request {
+                        out.push(
+                            rec(
+                                "request-taken-while-gate-closed",
+                                format!(
+                                    "poll #{i} was entered with inflight = {}/{} and collision = {:?}, nothing queued, nothing pending, and returned {}",
+                                    prev.snap.inflight,
+                                    limit,
+                                    prev.snap.collision,
+                                    cur.brief()
+                                ),
+                            )
+                            .fact("collision", prev.snap.collision.is_some()),
+                        );
+                        return out;
+                    }
+                } else if waiting {
+                    stats.oracle("C07/s3/request-taken-when-window-has-room");
+                    if i >= 2 && (log.polls[i - 2].snap.inflight >= limit || log.polls[i - 2].snap.collision.is_some()) {
+                        stats.corner("s3-resumed-after-ack");
+                    }
+                    if cur.at > cur.called {
+                        out.push(rec(
+                            "gate-open-request-not-taken",
+                            format!(
+                                "poll #{i} was entered at {} ms with inflight = {}/{}, no collision and {} request(s) waiting in the channel, yet it blocked until {} ms and returned {}",
+                                cur.called,
+                                prev.snap.inflight,
+                                limit,
+                                issued_before(i) - taken,
+                                cur.at,
+                                cur.brief()
+                            ),
+                        ));
+                        return out;
+                    }
+                }
+            }
+            if first_is_request {
+                taken += 1;
+            }
+        }
+        // the CONNACK poll (index 0) can never take a request; nothing to count there
+
+        // idle with room in the window: every request has been taken
+        if log.stopped_by == "stop-condition" {
+            stats.oracle("C07/s3/no-request-left-when-idle");
+            let last = log.polls.last().unwrap();
+            let issued = log.user.iter().filter(|u| u.ok).count();
+            if last.snap.inflight < limit && last.snap.collision.is_none() && taken < issued {
+                out.push(rec(
+                    "requests-left-in-channel",
+                    format!(
+                        "the connection went idle with inflight = {}/{} and no collision, but only {taken} of {issued} user requests were taken from the channel",
+                        last.snap.inflight, limit
+                    ),
+                ));
+                return out;
+            }
+        }
+
+        // wire-side shadow, in the order the client produced its events
+        let prod = cs3::produced(log);
+        let mut unacked: BTreeMap<u16, &'static str> = BTreeMap::new(); // pkid -> phase
+        for (_, e) in &prod.events {
+            match (e.incoming, e.pk.kind) {
+                (false, Kind::Publish) if e.pk.pkid != 0 => {
+                    stats.oracle("C07/s3/pkid-unique-among-unacknowledged");
+                    if let Some(phase) = unacked.get(&e.pk.pkid) {
+                        out.push(
+                            rec(
+                                "pkid-reused",
+                                format!("Outgoing(Publish({})) while a publish with that id is still unacknowledged ({phase})", e.pk.pkid),
+                            )
+                            .fact("holder_phase", *phase),
+                        );
+                        return out;
+                    }
+                    unacked.insert(e.pk.pkid, "sent");
+                    stats.oracle("C07/s3/window-within-limit");
+                    if unacked.len() > limit as usize {
+                        out.push(
+                            rec(
+                                "window-exceeded",
+                                format!("{} publishes written and unacknowledged, limit in force {}", unacked.len(), limit),
+                            )
+                            .fact("limit_lowered_by_connack", limit < case.inflight),
+                        );
+                        return out;
+                    }
+                }
+                (true, Kind::PubAck) | (true, Kind::PubComp) => {
+                    unacked.remove(&e.pk.pkid);
+                }
+                (true, Kind::PubRec) => {
+                    if e.pk.code >= 0x80 {
+                        unacked.remove(&e.pk.pkid);
+                    } else if let Some(p) = unacked.get_mut(&e.pk.pkid) {
+                        *p = "released";
+                    }
+                }
+                _ => {}
+            }
+        }
+        for w in log.wire_of(0, Dir::C2B) {
+            let carries = match w.pk.kind {
+                Kind::Publish => w.pk.qos > 0,
+                Kind::Subscribe | Kind::Unsubscribe => true,
+                _ => false,
+            };
+            if carries {
+                stats.oracle("C07/s3/pkid-in-range");
+                if w.pk.pkid == 0 || w.pk.pkid > limit {
+                    out.push(
+                        rec(
+                            "pkid-out-of-range",
+                            format!("{} on the wire, limit in force {}", w.pk.brief(), limit),
+                        )
+                        .fact("packet", format!("{:?}", w.pk.kind))
+                        .fact("zero", w.pk.pkid == 0)
+                        .fact("limit_lowered_by_connack", limit < case.inflight),
+                    );
+                    return out;
+                }
+            }
+        }
+        out
+    }
+
+    pub fn gen_case(rng: &mut Rng, ver: Ver, n: u64, allow_reuse_trigger: bool) -> Case {
+        let limit = *rng.pick(&[1u16, 2, 3, 5]);
+        let extra = rng.range(2, 6) as u16;
+        let shape = rng.below(3);
+        let mut conn = ConnSpec::normal(false);
+        // QoS 2 with a late PUBCOMP lets the id be re-issued before the flow is complete (F12):
+        // only in the histories that carry that trigger
+        let max_qos = if allow_reuse_trigger { 3 } else { 2 };
+        match shape {
+            // every acknowledgement late: the window stays full between acknowledgements
+            0 => {
+                let d = *rng.pick(&[10u64, 30, 70]);
+                conn = conn
+                    .rule(Cls::Q1, vec![], R::Delay(d))
+                    .rule(Cls::Q2, vec![], R::Delay(d))
+                    .rule(Cls::PubRel, vec![], R::Delay(d / 2));
+            }
+            // the first id is acknowledged last: wrap-around collision
+            1 => {
+                conn = conn.rule(Cls::Q1, vec![R::Delay(200)], R::Delay(5)).rule(Cls::Q2, vec![R::Delay(200)], R::Delay(5));
+            }
+            // acknowledgements in reverse order, in windows
+            _ => {
+                let w = rng.range(2, 3) as usize;
+                conn = conn.rule(Cls::Q1, vec![], R::Reorder(w));
+            }
+        }
+        let (inflight, receive_max) = if ver == Ver::V5 && rng.chance(1, 2) {
+            (10, Some(limit))
+        } else {
+            (limit, None)
+        };
+        conn.receive_max = receive_max;
+        let mut steps = vec![];
+        for i in 0..(limit + extra) {
+            let qos = if shape == 2 { 1 } else { rng.range(1, max_qos - 1) as u8 };
+            steps.push(UStep {
+                when: W::AfterConnAck(0),
+                op: UOp::Pub {
+                    qos,
+                    payload: format!("w{n}-{i}"),
+                },
+            });
+            if rng.chance(1, 8) {
+                steps.push(UStep {
+                    when: W::AfterConnAck(0),
+                    op: UOp::Sub { filter: "a/#".into() },
+                });
+            }
+            if rng.chance(1, 10) {
+                steps.push(UStep {
+                    when: W::AfterConnAck(0),
+                    op: UOp::Pub {
+                        qos: 0,
+                        payload: format!("z{n}-{i}"),
+                    },
+                });
+            }
+        }
+        Case {
+            name: format!("c07-{}-{n}", ["late-acks", "first-id-last", "reverse-acks"][shape as usize]),
+            ver: ver.name().into(),
+            inflight,
+            manual: false,
+            steps,
+            conns: vec![conn],
+        }
+    }
+
+    pub fn directed(ver: Ver) -> Vec<Case> {
+        let v = ver.name().to_owned();
+        let pubs = |n: usize, qos: u8| -> Vec<UStep> {
+            (0..n)
+                .map(|i| UStep {
+                    when: W::AfterConnAck(0),
+                    op: UOp::Pub {
+                        qos,
+                        payload: format!("d{i}"),
+                    },
+                })
+                .collect()
+        };
+        let mut cases = vec![
+            // limit 1, five publishes, each acknowledged 30 ms late
+            Case {
+                name: "s3-limit-1-late-acks".into(),
+                ver: v.clone(),
+                inflight: 1,
+                manual: false,
+                steps: pubs(5, 1),
+                conns: vec![ConnSpec::normal(false).rule(Cls::Q1, vec![], R::Delay(30))],
+            },
+            // limit 2: id 1 acknowledged after 200 ms, everything else at once -> collision on id 1
+            Case {
+                name: "s3-collision-then-release".into(),
+                ver: v.clone(),
+                inflight: 2,
+                manual: false,
+                steps: pubs(5, 1),
+                conns: vec![ConnSpec::normal(false).rule(Cls::Q1, vec![R::Delay(200)], R::Delay(5))],
+            },
+            // limit 3, QoS 2 flows with late PUBREC and PUBCOMP
+            Case {
+                name: "s3-qos2-late".into(),
+                ver: v.clone(),
+                inflight: 3,
+                manual: false,
+                steps: pubs(3, 2),
+                conns: vec![ConnSpec::normal(false)
+                    .rule(Cls::Q2, vec![], R::Delay(20))
+                    .rule(Cls::PubRel, vec![], R::Delay(20))],
+            },
+        ];
+        if ver == Ver::V5 {
+            cases.push(Case {
+                name: "s3-receive-max-2-of-10".into(),
+                ver: v,
+                inflight: 10,
+                manual: false,
+                steps: pubs(6, 1),
+                conns: vec![ConnSpec {
+                    receive_max: Some(2),
+                    ..ConnSpec::normal(false).rule(Cls::Q1, vec![], R::Delay(30))
+                }],
+            });
+        }
+        cases
+    }
+
+    pub fn run_case(ctx: &Ctx, stats: &mut Stats, case: &Case) {
+        let log = cs3::run(case);
+        stats.evaluations += 1;
+        stats.op("s3-history");
+        cs3::census(stats, &log);
+        if let Some(e) = &log.harness_error {
+            stats.inconclusive.push(format!("S3 harness: {e} (case {})", case.name));
+            return;
+        }
+        if log.polls.iter().any(|p| p.is(false, Kind::AwaitAck)) {
+            stats.corner("s3-collision-parked");
+        }
+        let shape: Vec<String> = log.polls.iter().map(|p| p.brief().split(' ').skip(2).collect::<Vec<_>>().join(" ")).collect();
+        stats.shapes.insert(fnv(format!("{}|{}|{}", case.ver, case.inflight, shape.join(",")).as_bytes()));
+        let recs = verdicts(case, &log, stats);
+        if stats.evaluations % 53 == 7 {
+            stats.sample(json!({"kind": "S3", "case": case, "observed": log.brief(80)}));
+        }
+        for r in recs {
+            let replay = || json!({"substrate": "S3", "case": case, "observed": log.brief(300)});
+            match judge(ctx, stats, r, replay) {
+                Judged::Known(_) | Judged::Violation => return,
+            }
+        }
+    }
+
+    pub fn run(ctx: &Ctx, stats: &mut Stats, seed: u64, n: u64, with_directed: bool) {
+        let mut rng = Rng::new(seed ^ 0x5307);
+        if with_directed {
+            for ver in [Ver::V4, Ver::V5] {
+                for case in directed(ver) {
+                    run_case(ctx, stats, &case);
+                    stats.add_extra("s3_directed_scenarios", 1);
+                }
+            }
+        }
+        for i in 0..n {
+            let ver = if rng.chance(1, 2) { Ver::V4 } else { Ver::V5 };
+            let trigger = rng.chance(15, 100);
+            let case = gen_case(&mut rng, ver, seed.wrapping_mul(100_000) + i, trigger);
+            run_case(ctx, stats, &case);
+            if stats.violations.len() >= 5 {
+                break;
+            }
+        }
+    }
+
+    pub fn replay(ctx: &Ctx, doc: &Value) -> Stats {
+        let mut stats = Stats::default();
+        match serde_json::from_value::<Case>(doc["case"].clone()) {
+            Ok(case) => run_case(ctx, &mut stats, &case),
+            Err(e) => stats.inconclusive.push(format!("replay file does not hold an S3 case: {e}")),
+        }
+        stats.shapes.insert(1);
+        stats.shapes.insert(2);
+        stats
+    }
+}
 
 fn run(ctx: &Ctx) -> Stats {
     let mut stats = cwork::run_family(ctx, ID, cwork::PROFILE_C07, 15_000, 3_000_000);
-    s3_half(ctx, &mut stats);
+    // event-loop half
+    if ctx.quick() {
+        el::run(ctx, &mut stats, ctx.seed, ctx.size(1200, 0), true);
+    } else {
+        let per = ctx.size(0, 300_000) / ctx.threads.max(1) as u64 + 1;
+        let s3 = crate::common::sharded(ctx, ctx.threads, |shard, seed| {
+            let mut st = Stats::default();
+            el::run(ctx, &mut st, seed, per, shard == 0);
+            st
+        });
+        stats.merge(s3);
+    }
     stats
 }
 
 fn replay(ctx: &Ctx, doc: &Value) -> Stats {
+    if doc["substrate"] == "S3" {
+        return el::replay(ctx, doc);
+    }
     cwork::replay_family(ctx, ID, doc)
 }
 
@@ -262,8 +663,11 @@ pub fn prop() -> Prop {
         id: ID,
         meta: Meta {
             level: "exploration",
-            rule: "S2 half only (state machine; the event-loop half on the real request channel is not built yet). \
-                   A case is one history of 20-160 ops against the real v4 or v5 MqttState with inflight limit from \
+            rule: "Two halves. S3 (real EventLoop::poll, v4 and v5, one connection, transports that never fail): more \
+                   user requests waiting in the request channel than the window admits (limit 1/2/3/5, v5 also as \
+                   receive_max of an upper limit of 10) against a broker that acknowledges late, first-id-last \
+                   (wrap-around collision) or in reverse windows; judged per poll() return on the public bookkeeping \
+                   at entry and on what the poll returned. S2 (real MqttState driven directly): a case is one history of 20-160 ops against the real v4 or v5 MqttState with inflight limit from \
                    {1,2,3,5,10,100,65535} (v5: receive_max negotiated down at CONNACK and changed between connections), \
                    ack orders FIFO/LIFO/random/skip-one with duplicates, wrong kinds and unsolicited ids, plus 12 (3.1.1) / 22 \
                    (MQTT 5) directed scenarios and a 65535-publish wrap-around per version. Distinct = hash of (version, limit, manual, \
@@ -272,7 +676,8 @@ pub fn prop() -> Prop {
                 "unacknowledged = from first write until PUBACK, or PUBCOMP for QoS 2 (DESIGN.md section 4)",
                 "limit for new packets = limit in force (v5: min(receive_max, configured)); a retransmission keeps its original id and is bounded by the configured limit",
                 "subscribe/unsubscribe ids share the allocator but only publishes are subject to the uniqueness clause, as the statement says",
-                "the S2 driver offers a new request to the state machine only when inflight < limit && collision.is_none() && pending is empty, as EventLoop::select does",
+                "the S2 driver offers a new request to the state machine only when inflight < limit && collision.is_none() && pending is empty, as EventLoop::select does; whether select really does is what the S3 half observes",
+                "S3 'resumes as soon as an acknowledgement frees the window' = a poll() entered with room in the window, nothing queued, nothing pending and a request waiting in the channel returns without virtual time passing; and no request is left waiting when the connection goes idle with room in the window",
             ],
             floors: &[
                 ("pkid-wrapped", 10000),
@@ -287,6 +692,12 @@ pub fn prop() -> Prop {
                 ("pkid-wrapped-at-65535", 2),
                 ("C07/pkid-unique-among-unacknowledged", 50000),
                 ("C07/inflight-equals-window", 500000),
+                ("s3-poll-entered-with-window-full", 1000),
+                ("s3-poll-entered-with-collision", 300),
+                ("s3-resumed-after-ack", 300),
+                ("s3-collision-parked", 100),
+                ("C07/s3/no-request-while-gate-closed", 1500),
+                ("C07/s3/request-taken-when-window-has-room", 3000),
             ],
         },
         run,
